@@ -92,7 +92,8 @@ pub const ITEM_FORGET: u8 = 3;
 pub const ITEM_LAZY: u8 = 4; // lazy clone into other, then drop
 pub const ITEM_MUTATE: u8 = 5; // assign through the item, then drop
 pub const ITEM_INSPECT: u8 = 6;
-pub const ITEM_KINDS: u8 = 7;
+pub const ITEM_MOVE_INSERT: u8 = 7; // insert(0, item) into other
+pub const ITEM_KINDS: u8 = 8;
 
 pub const END_DROP: u8 = 0;
 pub const END_FORGET: u8 = 1;
@@ -236,6 +237,8 @@ pub enum BeKind {
     Stack,
     StackN,
     Sim,
+    /// user-defined fixed-capacity back end (default `Mem::expand`, no MemResizable), instrumented like Sim
+    SimFixed,
     Empty,
 }
 impl BeKind {
@@ -245,6 +248,7 @@ impl BeKind {
             BeKind::Stack => "Stack",
             BeKind::StackN => "StackN",
             BeKind::Sim => "SimMem",
+            BeKind::SimFixed => "SimFixed",
             BeKind::Empty => "Empty",
         }
     }
@@ -262,6 +266,10 @@ impl BackendInfo {
     pub fn resizable(&self) -> bool {
         matches!(self.kind, BeKind::Heap | BeKind::Sim)
     }
+    /// storage lives in blocks of the simulated environment
+    pub fn in_env(&self) -> bool {
+        matches!(self.kind, BeKind::Sim | BeKind::SimFixed)
+    }
     pub fn on_stack(&self) -> bool {
         matches!(self.kind, BeKind::Stack | BeKind::StackN)
     }
@@ -269,7 +277,7 @@ impl BackendInfo {
     pub fn fixed_cap(&self, elem_size: usize) -> Option<usize> {
         match self.kind {
             BeKind::Stack => Some(if elem_size == 0 { usize::MAX } else { self.bytes / elem_size }),
-            BeKind::StackN => Some(self.n),
+            BeKind::StackN | BeKind::SimFixed => Some(self.n),
             BeKind::Empty => Some(0),
             _ => None,
         }
@@ -278,6 +286,7 @@ impl BackendInfo {
         match self.kind {
             BeKind::Stack => format!("Stack<{}>", self.bytes),
             BeKind::StackN => format!("StackN<{},{}>", self.n, self.bytes),
+            BeKind::SimFixed => format!("SimFixed<{}>", self.n),
             k => k.name().to_string(),
         }
     }
